@@ -95,6 +95,12 @@ def main():
                     ctx.broken('axiom-audit', p)
                 for t in R['theorems']:
                     ctx.obligations.append((t, t in axioms and not (set(axioms[t]) - common.ALLOWED_AXIOMS)))
+                if tier == 'thorough':
+                    # independent re-check of the compiled proof modules by the toolchain's stand-alone kernel re-checker
+                    rc2, out2 = common._sh(['lake', 'env', 'leanchecker'] + list(R['modules']), cwd=common.LEAN, timeout=3000)
+                    ctx.extra['leanchecker'] = dict(modules=len(R['modules']), rc=rc2)
+                    if rc2 != 0:
+                        ctx.broken('leanchecker', out2[-3000:])
             else:
                 for t in R['theorems']:
                     ctx.obligations.append((t, False))
